@@ -426,6 +426,8 @@ def _classify_ok_site(r, body, bb, st, msg_kinds=None, actual="?"):
                 kop = agg_field_op(st, "kind")
                 aop = agg_field_op(st, "actual")
                 kk = msg_kinds if msg_kinds is not None else kind_of_operand(body, kop)
+                if "msg" in kk:
+                    kk = (kk - {"msg", "param"}) | {k}   # inside the handler of kind k, the request's own kind is k
                 act = actual if actual != "?" else (const_val(aop) if aop else None)
                 if kk == {k} and act == "false":
                     return "I2", f"foreign-kind reply for {k}"
@@ -451,7 +453,7 @@ def ok_discipline(ctx):
                             kinds |= kind_of_operand(cv, ct["args"][a[1] - 1])
                     kinds |= kind_of_operand(b, kop) & {"Build", "Service"}
                     aop = agg_field_op(st, "actual")
-                    idiom, why = _classify_ok_site(r, cv, cbb, st, msg_kinds=kinds, actual=(const_val(aop) if aop else None))
+                    idiom, why = _classify_ok_site(r, cv, cbb, st, msg_kinds=kinds, actual=bound_const(b, aop, cv, ct))
                     props = {"I1": ["C01", "C06"], "I2": ["C01"], "I3": ["C01", "C20"]}.get(idiom)
                     inst = f"{short(cv.name)}/via-{short(b.name).split('::')[-1]}@{cbb}"
                     if idiom:
